@@ -93,7 +93,7 @@ func Evolve(t *rapid.T, v1 *StructSpec, o GenOptions) (*StructSpec, []string) {
 				added = append(added, "index on "+f.Name)
 			}
 		} else if f.Check == "" {
-			f.Check = "marker > 0"
+			f.Check = rapid.SampledFrom(CheckExprs).Draw(t, fmt.Sprintf("v2.mod%d.chk", i))
 			if !noName && rapid.Bool().Draw(t, fmt.Sprintf("v2.mod%d.chkname", i)) {
 				f.CheckName = "chk2_" + strings.ToLower(f.Name)
 			}
